@@ -41,6 +41,17 @@ Theorem C02_spec_root : forall (x : tree) (r1 : oseq) (op : binop) (y : tree) (r
 Proof. intros x r1 op y r2 H1 H2. split; [apply spec_seq_nil | apply spec_seq_root; assumption]. Qed.
 Print Assumptions C02_spec_root.
 
+(* 3b. ... and spec_seq is the ONLY function satisfying them, so "the grouping the precedence table prescribes"
+       is well defined for every sequence. *)
+Theorem C02_spec_unique : forall g : tree -> oseq -> tree,
+  (forall x, g x [] = x) ->
+  (forall x r1 op y r2,
+     Forall (fun ot => crank op <= crank (fst ot)) r1 -> Forall (fun ot => crank op < crank (fst ot)) r2 ->
+     g x (r1 ++ (op, y) :: r2) = TBin op (g x r1) (g y r2)) ->
+  forall x r, g x r = spec_seq x r.
+Proof. exact spec_seq_unique. Qed.
+Print Assumptions C02_spec_unique.
+
 (* 4. Operators of one class group left to right — including ^. *)
 Theorem C02_same_class_left : forall (c : nat) (x : tree) (r : oseq),
   Forall (fun ot => crank (fst ot) = c) r ->
